@@ -39,6 +39,10 @@ CB_SRC = {
     20: 'fn cb20<\'s>(lex: &mut L<\'s>) { zoo_rt::called(); bump1(lex) }',
     21: 'fn cb21<\'s>(lex: &mut L<\'s>) -> usize { zoo_rt::called(); bump1(lex); lex.slice().len() }',
     22: 'fn cb22<\'s>(lex: &mut L<\'s>) { zoo_rt::called(); bump1(lex) }',
+    25: 'fn cb25<\'s>(_lex: &mut L<\'s>) -> Option<()> { zoo_rt::called(); None }',
+    26: 'fn cb26<\'s>(_lex: &mut L<\'s>) -> bool { zoo_rt::called(); false }',
+    23: 'fn cb23<\'s>(lex: &mut L<\'s>) -> Result<(), ZErr> { zoo_rt::called(); if sel(lex) == 0 { Err(ZErr::Default) } else { Ok(()) } }',
+    24: 'fn cb24<\'s>(lex: &mut L<\'s>) -> logos::FilterResult<usize, ZErr> { zoo_rt::called(); match sel(lex) { 0 => logos::FilterResult::Skip, 1 => logos::FilterResult::Error(ZErr::Default), _ => logos::FilterResult::Emit(lex.slice().len()) } }',
 }
 
 
